@@ -2,6 +2,7 @@ package main
 
 import (
 	"bytes"
+	"context"
 	"encoding/json"
 	"errors"
 
@@ -12,6 +13,11 @@ import (
 
 func init() {
 	props["c14"] = runC14
+	replayers["massive-reader"] = func(m *Model, raw json.RawMessage) []Diff {
+		var c Case
+		json.Unmarshal(raw, &c)
+		return runMassiveReader(c)
+	}
 	replayers["wfault"] = func(m *Model, raw json.RawMessage) []Diff {
 		var c Case
 		json.Unmarshal(raw, &c)
@@ -35,6 +41,9 @@ func runWFault(c Case) []Diff {
 		case "json", "yaml", "toml":
 			opts = []gtree.Option{encodeOpt(c.Mode)}
 		}
+		if c.Massive {
+			opts = append(opts, gtree.WithMassive(context.Background()))
+		}
 		if c.FromRoot {
 			return gtree.OutputFromRoot(w, buildRoot(parseTreeEnc(c.Tree)), opts...)
 		}
@@ -44,15 +53,16 @@ func runWFault(c Case) []Diff {
 	if err := call(free); err != nil {
 		return []Diff{{What: "fault-free run failed", Real: classify(err), Model: "nil"}}
 	}
-	full := free.buf.Bytes()
+	_, full := free.markReturned()
 	var d []Diff
 	if c.WFail >= free.calls {
 		return nil
 	}
 	w := &faultWriter{failAt: c.WFail, short: c.Short}
 	err := call(w)
+	w.markReturned()
 	if err == nil {
-		d = append(d, Diff{What: "writer failed at write " + fmtInt(c.WFail) + " of " + fmtInt(free.calls) + " but the call returned nil", Real: "nil; accepted " + fmtInt(w.buf.Len()) + " of " + fmtInt(len(full)) + " bytes", Model: "non-nil error"})
+		d = append(d, Diff{What: "writer failed at write " + fmtInt(c.WFail) + " of " + fmtInt(free.calls) + " but the call returned nil", Real: "nil; accepted fewer than the " + fmtInt(len(full)) + " bytes of the output", Model: "non-nil error"})
 	} else if !errors.Is(err, errWriter) {
 		// still fine for the property (non-nil), but record unexpected classes
 		if classify(err) == "nil" {
@@ -60,6 +70,29 @@ func runWFault(c Case) []Diff {
 		}
 	}
 	return d
+}
+
+// runMassiveReader: massive mode with a reader that fails after the given prefix of a well-formed document.
+func runMassiveReader(c Case) []Diff {
+	opts := []gtree.Option{gtree.WithMassive(context.Background())}
+	var err error
+	w := &faultWriter{failAt: -1}
+	r := &faultReader{data: c.doc(), fail: true, chunk: 5}
+	switch c.Mode {
+	case "text":
+		err = gtree.OutputFromMarkdown(w, r, opts...)
+	case "json":
+		err = gtree.OutputFromMarkdown(w, r, append(opts, gtree.WithEncodeJSON())...)
+	case "dry":
+		err = gtree.OutputFromMarkdown(w, r, append(opts, gtree.WithDryRun())...)
+	case "walk":
+		err = gtree.WalkFromMarkdown(r, func(*gtree.WalkerNode) error { return nil }, opts...)
+	}
+	w.markReturned()
+	if !errors.Is(err, errReader) {
+		return []Diff{{What: "massive mode: the reader failed but the call did not return the reader's error", Real: classify(err), Model: "reader"}}
+	}
+	return nil
 }
 
 func runC14(ctx *Ctx) *Report {
@@ -174,13 +207,42 @@ func runC14(ctx *Ctx) *Report {
 					c2.FromRoot, c2.Tree = true, f[0].Enc()
 					fcases = append(fcases, c2)
 				}
+				if mode != "batch-text" && (fi+k)%3 == 0 {
+					c3 := c
+					c3.Massive = true
+					fcases = append(fcases, c3)
+					if len(f) == 1 && mode != "toml" {
+						c4 := c3
+						c4.FromRoot, c4.Tree = true, f[0].Enc()
+						fcases = append(fcases, c4)
+					}
+				}
 			}
 		}
 	}
 	parallel(fcases, ctx.Workers, func(m *Model, c Case) {
 		diffs := runWFault(c)
 		rep.Record(c, caseKey(c), c.WFail >= 1, diffs)
-		rep.Count("wfault:" + c.Mode + ifs(c.FromRoot, "/root", ""))
+		rep.Count("wfault:" + c.Mode + ifs(c.FromRoot, "/root", "") + ifs(c.Massive, "/massive", ""))
+	})
+	// --- massive mode: reader failure after every offset must surface as the reader's error
+	var mr []Case
+	for fi, f := range forests {
+		if len(f) < 2 && fi%3 != 0 {
+			continue
+		}
+		doc := spell(f, coveringSpellings()[fi%24])
+		for k := 0; k <= len(doc); k += 1 + fi%3 {
+			c := newCase("massive-reader")
+			c.Mode = []string{"text", "json", "dry", "walk"}[(fi+k)%4]
+			c.Doc, c.DocText = hx(doc[:k]), docText(doc[:k])
+			mr = append(mr, c)
+		}
+	}
+	parallel(mr, ctx.Workers, func(m *Model, c Case) {
+		diffs := runMassiveReader(c)
+		rep.Record(c, caseKey(c), len(c.Doc) > 8, diffs)
+		rep.Count("massive-reader:" + c.Mode)
 	})
 	return rep
 }
